@@ -256,10 +256,7 @@ Proof.
   - apply perm_skip, IH.
 Qed.
 Lemma canon_args_perm ks : Permutation (canon_args ks) ks.
-Proof.
-  unfold canon_args. eapply perm_trans; [|apply (filter_split_perm is_kw)].
-  apply Permutation_app_tail, isort_by_perm.
-Qed.
+Proof. apply isort_by_perm. Qed.
 
 Lemma Same_norm sort : forall n, Same sort (norm sort n) n.
 Proof.
